@@ -146,3 +146,57 @@ Proof.
   split; [exact QcA_laws|]. split; [exact id_leaf_ext|]. split; [exact id_leaf_null|].
   cbn. repeat split; try (left; reflexivity); try (right; right; left; reflexivity); try discriminate; try reflexivity.
 Qed.
+
+(* ------------------------------------------------------------------------------------------
+   BlockDiagonalOperator over a MultiDomain with ANY number of keys (model Block.v: the tuple
+   _ops with None for a missing key, MultiFields as lists of per-key fields). *)
+Require Import NV.C01.Block NV.C01.ProofsBlock.
+
+(* BlockDiagonalOperator._combine_chain: for two block-diagonal operators on the same MultiDomain
+   (equal number of keys) whose present blocks are well-formed operator objects, the combined
+   operator (missing+missing stays missing, one missing -> the other block, both present ->
+   v1 @ v2 with its simplifications) acts in all four modes as the block-matrix product: B1 (B2 x)
+   in the forward modes, B2' (B1' x) in the backward ones, a missing key being the identity. *)
+Theorem C01_blockdiag_combine_chain_sound :
+  forall (A : arith), laws A ->
+  forall leaf_apply : nat -> Z -> vec A -> vec A,
+    (forall (l : nat) (m : Z) (x y : vec A), (forall i, x i = y i) -> forall i, leaf_apply l m x i = leaf_apply l m y i) ->
+    (forall (l : nat) (m : Z) (x : vec A) (c : T A) (i : nat),
+        leaf_apply l m (fun j => mul A (x j) c) i = mul A (leaf_apply l m x i) c) ->
+    (forall (m : Z) (x : vec A) (i : nat), leaf_apply null_id m x i = zero A) ->
+  forall b1 b2 : bdo A, length b1 = length b2 -> wfb A b1 -> wfb A b2 ->
+    wfb A (bd_chain A b1 b2) /\ length (bd_chain A b1 b2) = length b1 /\
+    forall k : Z, In k [0;1;2;3]%Z -> forall xs : list (vec A), length xs = length b1 ->
+      mpeq A (bd_apply A leaf_apply (bd_chain A b1 b2) (Z.shiftl 1 k) xs)
+             (bd_prod_sem A leaf_apply b1 b2 (Z.shiftl 1 k) xs).
+Proof. exact bd_chain_sound. Qed.
+
+(* BlockDiagonalOperator._combine_sum(op, selfneg, opneg): every key of the result is present and
+   the result acts, in the two modes a sum supports, as the signed block-matrix sum
+   (+-)B1_key x_key + (+-)B2_key x_key on every key, a missing key being the identity. *)
+Theorem C01_blockdiag_combine_sum_sound :
+  forall (A : arith), laws A ->
+  forall leaf_apply : nat -> Z -> vec A -> vec A,
+    (forall (l : nat) (m : Z) (x y : vec A), (forall i, x i = y i) -> forall i, leaf_apply l m x i = leaf_apply l m y i) ->
+    (forall (l : nat) (m : Z) (x : vec A) (c : T A) (i : nat),
+        leaf_apply l m (fun j => mul A (x j) c) i = mul A (leaf_apply l m x i) c) ->
+    (forall (m : Z) (x : vec A) (i : nat), leaf_apply null_id m x i = zero A) ->
+  forall (n1 n2 : bool) (b1 b2 : bdo A), length b1 = length b2 -> wfb A b1 -> wfb A b2 ->
+    wfb A (bd_sum A b1 b2 n1 n2) /\ length (bd_sum A b1 b2 n1 n2) = length b1 /\
+    Forall (fun o => o <> None) (bd_sum A b1 b2 n1 n2) /\
+    forall k : Z, (k = 0 \/ k = 1)%Z -> forall xs : list (vec A), length xs = length b1 ->
+      mpeq A (bd_apply A leaf_apply (bd_sum A b1 b2 n1 n2) (Z.shiftl 1 k) xs)
+             (bd_sum_sem A leaf_apply b1 b2 n1 n2 (Z.shiftl 1 k) xs).
+Proof. exact bd_sum_sound. Qed.
+
+(* Non-vacuity: two 3-key operators with missing keys in different places; the chain keeps the key
+   that is missing in both missing, the sum has every key present. *)
+Example C01_blockdiag_nonvacuous :
+  let D : op QcA := @Diag QcA (fun i => Q2Qc (Qmake (Z.of_nat i + 1) 1)) 0 None in
+  let b1 : bdo QcA := [Some D; None; None] in
+  let b2 : bdo QcA := [Some (@Leaf QcA 0%nat 3); Some D; None] in
+  wfb QcA b1 /\ wfb QcA b2 /\ length b1 = length b2 /\
+  nth 2 (bd_chain QcA b1 b2) (Some D) = None /\ nth 2 (bd_sum QcA b1 b2 false true) None <> None.
+Proof.
+  cbn. repeat split; try discriminate; repeat constructor; try (left; reflexivity); try discriminate.
+Qed.
